@@ -549,6 +549,67 @@ def special_histories():
     return hs
 
 
+def boundary_histories(quick):
+    """capacity boundaries of `detach(copyLength, minCapacity)`: for every growing call the needed capacity is
+    swept over cap-1, cap, cap+1, cap+2 of an exclusively owned block (fast path / reallocation) and of a shared
+    block (always reallocates); capacities are set exactly by `String(usize capacity)`.  Returns the histories
+    and the coverage histogram  "<call>:<excl|shared>:need-cap=<d>" -> count."""
+    hs, cov = [], {}
+
+    def add(h, call, shared, delta):
+        hs.append(h)
+        k = f"{call}:{'shared' if shared else 'excl'}:need-cap={delta:+d}"
+        cov[k] = cov.get(k, 0) + 1
+
+    fill = lambda n, b=0x61: hexs([b] * n)
+    caps = [3, 4, 7, 8, 11] if quick else [0, 1, 2, 3, 4, 5, 7, 8, 11, 12, 15, 16, 19]
+    for C_ in caps:
+        for L in sorted({0, 1, max(0, C_ - 1), C_}):
+            if L > C_:
+                continue
+            for shared in (False, True):
+                pre = [f"cap 0 {C_}"] + ([f"append 0 {fill(L)}"] if L else []) + (["assign 1 0"] if shared else [])
+                for d in (-1, 0, 1, 2):
+                    need = C_ + d
+                    k = need - L                      # chars to add
+                    if k >= 0:
+                        add(pre + [f"append 0 {fill(k, 0x62)}"], "append(ptr,len)", shared, d)
+                        add(pre + [f"prepend 0 {fill(k, 0x62)}"], "prepend(ptr,len)", shared, d)
+                        add(pre + [f"ptr 2 {fill(k, 0x63)}", "appendS 0 2"], "append(String)", shared, d)
+                        add(pre + [f"ptr 2 {fill(k, 0x63)}", "prependS 0 2"], "prepend(String)", shared, d)
+                        add(pre + [f"appendX 0 x{fill(k, 0x64)}"], "append(String temp)", shared, d)
+                        toks = hexs(([0x62] * max(0, k - 1) + [0x2F]) if k > 0 else [])
+                        # join() clears first: the joined text of k chars needs capacity k
+                        add(pre + [f"ptr 2 {toks if k else '-'}", "split 2 2f 0", "join 0 47"], "join", shared, k - C_)
+                    if k == 1:
+                        add(pre + ["appendC 0 47"], "append(char)", shared, d)
+                    if 2 * L == need:
+                        add(pre + ["appendS 0 0"], "append(self)", shared, d)
+                        add(pre + ["prependS 0 0"], "prepend(self)", shared, d)
+                    if need >= 0:
+                        add(pre + [f"resize 0 {need}"], "resize", shared, d)
+                        add(pre + [f"reserve 0 {need}"], "reserve", shared, d)
+                        add(pre + [f"resize 0 {need}", f"fillfrom 0 {min(L, need)} 122"], "resize+fill", shared, d)
+    # printf: first attempt into max(capacity, printfBuf|mask); the fits test `result < capacity`
+    for C_ in ([200, 203, 204] if quick else [0, 100, 199, 200, 201, 202, 203, 204, 207, 250]):
+        for shared in (False, True):
+            pre = [f"cap 0 {C_}"] + (["assign 1 0"] if shared else [])
+            eff = C_ if (C_ >= 200 and not shared) else 203
+            for d in (-2, -1, 0, 1, 2):
+                n = eff + d
+                add(pre + [f"printf 0 S{fill(n - 1)} C47"], "printf", shared, d)
+                add(pre + [f"printf 0 S{fill(n - 1)} C47", "printf 0 L61 D7"], "printf twice", shared, d)
+    # replace: `String result(len + 10 * replacement.len)`, the result outgrows it after > 10*r/(r-n) matches
+    for nmatch in ([19, 20, 21, 22] if quick else range(9, 34)):
+        for shared in (False, True):
+            subj = fill(nmatch)
+            pre = [f"ptr 0 {subj}"] + (["assign 1 0"] if shared else [])
+            # needle "a" (1), replacement "bc" (2): result 2k chars, capacity k + 20
+            add(pre + ["replaceL 0 61 6263"], "replace", shared, 2 * nmatch - (nmatch + 20))
+            add(pre + ["ptr 2 61", "ptr 3 626364", "replaceS 0 2 3"], "replace", shared, 3 * nmatch - (nmatch + 30))
+    return hs, cov
+
+
 def nontrivial(h, out):
     if len(h) < 3 or not out:
         return None
@@ -572,6 +633,8 @@ def histories_for(ctx):
         qs += query_histories(2, 4, ["owned", "shared"])
     fq = foreign_query_histories(1 if quick else 2)
     sp = special_histories()
+    bd, bcov = boundary_histories(quick)
+    ctx.cov.setdefault("branch_hits", {})["detach_capacity_boundary"] = dict(sorted(bcov.items()))
     rnd = [gen_history(rng, rng.choice([8, 20, 40, 60])) for _ in range(8000 if quick else 90000)]
     ctx.cov["rule"] = (
         f"corpus ({len(corpus)}) + exhaustive A: all op sequences of length <= {3 if quick else 4} over a {len(CORE_OPS)}-op alphabet on 3 variables "
@@ -581,12 +644,14 @@ def histories_for(ctx):
         f"of length <= {2 if quick else 3}{'' if quick else ' (and subjects <= 2 x arguments <= 4)'} as argument of every query/search/split/trim/replace/token op at every start index ({len(qs)} histories) + "
         f"every sub-range of the 4 foreign regions as attached subject x arguments of length <= {1 if quick else 2} ({len(fq)}) + "
         f"{len(sp)} special (toBool table, all 255 bytes through the case maps, printf around the 200-char buffer) + "
+        f"{len(bd)} capacity-boundary histories (every growing call x needed capacity = cap-1..cap+2 x exclusive/shared block, printf around its buffer, "
+        f"replace around its result slack; histogram in branch_hits.detach_capacity_boundary) + "
         f"{len(rnd)} random histories of 8..60 ops over 4 variables, 2 literals, 2 attached ranges; "
         "distinct_nontrivial = distinct (op-kind set, final observation of all variables) among histories with >= 3 ops and a non-empty final state")
     ctx.cov["exhaustive"] = False
     ctx.cov["exhaustive_scope"] = (f"A: length<={3 if quick else 4} over {len(CORE_OPS)} ops: {len(ex1)} histories; B: length<={2 if quick else 3} over "
                                    f"{len(CORE_OPS) + len(MORE_OPS)} ops: {len(ex2)}; queries: {len(qs)} subject histories; foreign: {len(fq)}")
-    return corpus + sp + ex1 + ex2 + qs + fq + rnd
+    return corpus + sp + bd + ex1 + ex2 + qs + fq + rnd
 
 
 ASSUMPTIONS = [
